@@ -205,6 +205,47 @@ func RunC12(tier string) int {
 				good = append(good, s)
 			}
 		}
+		// worlds in which dependency analysis itself must fail (an escaping local
+		// dependency, an unsatisfiable version constraint): with a fault-free
+		// environment and finders that report no diagnostics of their own, the
+		// caller must still be told.
+		{
+			var must []scenario
+			var why []string
+			for _, s := range scs {
+				if c := Closure(s.world(), s.adds); c.Error != "" {
+					must = append(must, s)
+					why = append(why, c.Error)
+				}
+			}
+			margs := make([]BuildArg, len(must))
+			pool.Map("build", len(must), func(i int) any {
+				margs[i] = BuildArg{World: must[i].world(), Adds: must[i].adds}
+				return margs[i]
+			}, func(i int, r core.Result) {
+				rep.Evaluations++
+				desc := must[i].String()
+				if r.Hung || r.Crashed {
+					rep.Violation("sourcebundle.Builder/hang-or-crash", desc+" "+firstLines(r.Stderr, 3), "build", margs[i])
+					return
+				}
+				var out BuildOut
+				core.MustOut(r, &out)
+				told := out.CloseErr != "" || out.ClosePanic != ""
+				for _, a := range out.Adds {
+					if a.HasErrors || a.Panic != "" {
+						told = true
+					}
+				}
+				rep.Outcome("build:analysis-must-fail")
+				rep.Nontrivial("must-fail:" + why[i])
+				if !told {
+					rep.Violation("sourcebundle.Builder/analysis-failure-not-reported", desc+" :: dependency analysis cannot succeed ("+why[i]+") but no Add call and not Close reported an error", "build", margs[i])
+				}
+			})
+			parts = append(parts, map[string]any{"part": "builder-analysis-must-fail", "runs": len(must)})
+			fmt.Printf("  part builder-analysis-must-fail: runs=%d\n", len(must))
+		}
 		type run struct {
 			sc      int
 			choices []int
@@ -277,7 +318,7 @@ func RunC12(tier string) int {
 	rep.States = rep.Evaluations
 	rep.Transitions = rep.Evaluations
 	rep.Extra["parts"] = parts
-	rep.Rule = "E2, one deviation at a time: Pack on 6 trees × {deref} with the writer failing at EVERY byte offset (plain and short write); Unpack on every archive of <=2 (thorough 3) entries with the reader ending/failing at EVERY byte offset (thorough also 1-byte reads); builder: every callback (fetch, versions, source address, finder) of every error-free world (<=2 Adds, <=1/2 edges) is a choice point {ok, error; finders: error diag, warning diag, error diag with file ranges}, all single (thorough: double) deviations; at every callback boundary the target directory is copied and opened (crash points). Non-trivial = the injected fault was reached; distinct by (position, outcome)."
+	rep.Rule = "E2, one deviation at a time: Pack on 6 trees × {deref} with the writer failing at EVERY byte offset (plain and short write); Unpack on every archive of <=2 (thorough 3) entries with the reader ending/failing at EVERY byte offset (thorough also 1-byte reads); builder: every callback (fetch, versions, source address, finder) of every error-free world (<=2 Adds, <=1/2 edges) is a choice point {ok, error; finders: error diag, warning diag, error diag with file ranges}, all single (thorough: double) deviations; every world of the same enumeration whose analysis cannot succeed (escaping local dependency, unsatisfiable constraint) is built fault-free and must report an error; at every callback boundary the target directory is copied and opened (crash points). Non-trivial = the injected fault was reached; distinct by (position, outcome)."
 	rep.Assumptions = []string{"file-system faults inside Unpack/Builder are not injected (os is not behind a seam)", "a fault placed after the last byte the tar reader consumes is legitimately invisible"}
 	return rep.Finish()
 }
